@@ -63,6 +63,10 @@ CLAIMS = {
          "Decides that every recursive component on the analysis paths has a structural bound and that fan-out > 1 is always paired with a memo, visited set, tree descent or constructor-side size cap (a depth bound alone is rejected as exponential) — the rule that found both blow-ups repaired in /repo (shared-subexpression rendering, nested induction substitution) from the code's shape; all work caps dominate their sinks. The polynomial bound as a number and comparison counts are not decided.",
          "Call-graph soundness for the module's own code (no reflection/unsafe in production code).",
          "DESIGN.md §4 C17"),
+ "C05": ("producer/consumer agreement census for hash fields (who-may-assign, who-compares, who-probes), format-prefix and byte-layout agreement between index writers and readers, forbidden-read census with self-reference replacement check on the topology path, inclusive-comparison atoms for admission, collection-agreement between indexer and matcher",
+         "Decides the structural conditions under which indexed code is found again: stored and looked-up hashes come from the same two functions; reader prefixes are format-prefixes of writer keys and the packed value is decoded with the layout it was encoded with; nothing on the topology/hash path reads a name of the analysed function (the rule that found the closure-parameter-name and recursive-self-name leaks repaired in /repo); admission is inclusive; indexer and matcher consult the same collections. That the self-match confidence is numerically 1.0 is not decided.",
+         "Callee names of other package-level functions are part of the call profile by design and outside this check.",
+         "DESIGN.md §4 C05"),
 }
 
 PENDING_REASON = "static check for this property is not armed yet in this revision of the machinery (see DESIGN.md §4 for the planned structural clauses); not claimed until its rules run silent on the tree and fire on their mutants"
